@@ -148,4 +148,44 @@ PROPS = {
                             'tolerance 1e-10 relative for f, 1e-8 for phi')],
         assumptions=['simulated MPI (vf/shim)', 'reductions are not compared bit for bit (floating-point reassociation)'],
     ),
+    'C12': dict(
+        level='proof',
+        contracts=['vf.contracts.advection_kernels'],
+        functions=[
+            dict(key=ADV + '::general_poloidal_advection_step_expl', gen='pol_general', n=(150, 3000)),
+            dict(key=ADV + '::poloidal_advection_step_expl', gen='pol_dispatch', n=(150, 3000)),
+            dict(key=ADV + '::general_poloidal_advection_step_impl'),
+            dict(key=ADV + '::poloidal_advection_step_impl'),
+        ],
+        assumptions=['S2 names the value returned by the 2-D spline evaluator passed in (general or uniform-cubic); that it is the '
+                     'tensor B-spline value is C07', 'f_eq is an uninterpreted pure function',
+                     'implicit variant: partial correctness only (termination of the fixed-point iteration is not decided)',
+                     'range of the floor-based real modulo is a trusted arithmetic fact'],
+    ),
+    'C17': dict(
+        level='other',
+        contracts=[],
+        functions=[],
+        bounded=[dict(module='vf.rt.bounded_diag', prop='C17',
+                      bound='l2/l1/nParticles/KineticEnergy in all three 4-D layouts and the phi norm in the 3-D layouts (incl. layouts '
+                            'replicated along one process direction) on process grids 1x1..4x3 with uneven blocks and non-uniform r, v '
+                            'meshes against an independently written trapezoid/rectangle quadrature of the global field (tolerance '
+                            '1e-11 relative to the quadrature of |integrand|), analytic volume for f=1; getMin/getMax (whole grid, fixed '
+                            'index along each axis, pairs of axes, several roots); DiagnosticCollector slots for int/float/accumulated '
+                            'times, saveStep 1..6, reduce on all ranks')],
+        assumptions=['simulated MPI (vf/shim)'],
+    ),
+    'C18': dict(
+        level='other',
+        contracts=[],
+        functions=[],
+        bounded=[dict(module='vf.rt.bounded_diag', prop='C18',
+                      bound='write with P and load with Q ranks, P,Q in {1,2,3,4,6}, all 4-D layouts and 3-D complex grids, bitwise '
+                            'comparison incl. -0.0/nan/inf/denormals; latest / timepoint selection for time sets with different digit '
+                            'counts; constants: str -> get_constants round trip and 40-120 key orders per random file with symbolic '
+                            'dependency chains; restart: fullSimulation.main() itself, N+M steps vs N then M, saveStep 1..5, dt int/float, '
+                            'P 1..6, byte-identical final checkpoints. h5py has no MPI driver here: File(driver=mpio) is served by a '
+                            'documented stand-in (shared on-disk file, locked writes) for the duration of a case')],
+        assumptions=['simulated MPI (vf/shim)', 'HDF5 hyperslab semantics of h5py; the mpio stand-in of vf/rt/bounded_diag.py'],
+    ),
 }
